@@ -1,17 +1,18 @@
 #!/bin/bash
-# usage: seed_verify.sh <ID> <k>
+# usage: [SEEDBASE=/tmp/seed2 TESTPREFIX=TestSeed2] seed_verify.sh <ID> <k>
 # Confirms a seeded change in a scratch worktree: demo passes on clean HEAD, existing suite passes with the patch,
 # demo fails with the patch; then runs the checker against the patched tree. Writes /tmp/seed/<ID>/<k>/verify.json.
 set -u
 ID="$1"; K="$2"
-S=/tmp/seed/$ID/$K
+BASE=${SEEDBASE:-/tmp/seed}
+S=$BASE/$ID/$K
 export GOFLAGS=-mod=mod GOPROXY=off GOSUMDB=off GOTOOLCHAIN=local
 unset GOWORK
 W=/tmp/sv-$ID-$K
 git -C /repo worktree remove --force "$W" >/dev/null 2>&1
 git -C /repo worktree add -q --detach "$W" HEAD || exit 3
 cp "$S/demo_test.go" "$W/test/zz_seed_demo_test.go"
-T="TestSeed${ID}_${K}"
+T="${TESTPREFIX:-TestSeed}${ID}_${K}"
 RACE=""
 grep -qi "race" "$S/notes.md" 2>/dev/null && grep -qi "\-race" "$S/notes.md" && RACE="-race"
 (cd "$W" && timeout 900 go test -mod=mod -vet=off -count=1 $RACE -timeout 10m -run "^${T}\$" ./test > "$S/clean_demo.log" 2>&1); CLEAN=$?
@@ -29,10 +30,10 @@ else
   CHK=-1
 fi
 git -C /repo worktree remove --force "$W" >/dev/null 2>&1
-python3 - "$ID" "$K" "$CLEAN" "$APPLY" "$SUITE" "$DEMO" "$CHK" "$RACE" <<'PY'
+python3 - "$ID" "$K" "$CLEAN" "$APPLY" "$SUITE" "$DEMO" "$CHK" "$RACE" "$BASE" <<'PY'
 import sys, json, re
-ID,K,CLEAN,APPLY,SUITE,DEMO,CHK,RACE=sys.argv[1:9]
-S=f"/tmp/seed/{ID}/{K}"
+ID,K,CLEAN,APPLY,SUITE,DEMO,CHK,RACE,BASE=sys.argv[1:10]
+S=f"{BASE}/{ID}/{K}"
 viol=[]
 try:
     for l in open(S+"/checker.log"):
